@@ -738,3 +738,9 @@ func cmdLiveWalk(args []string) {
 	b, _ := json.Marshal(res)
 	os.WriteFile(*out, b, 0o644)
 }
+
+func init() {
+	register("live-gen", cmdLiveGen)
+	register("live-rerun", cmdLiveRerun)
+	register("live-walk", cmdLiveWalk)
+}
